@@ -201,12 +201,13 @@ Proof.
                  (fun (_ : nat) (item : T * list nat) (pt : list (nat * nat)) => pt ++ map (fun v => (v, 0)) (snd item)))
         by (intros j x cur q; cbv beta iota;
             destruct (leb u0 (add cur (fst x))); [|reflexivity];
-            rewrite (for_each_append_map (snd x) _ (fun v => (v, 0))); reflexivity);
+            (* the structure is appended by a loop, or at once (extend + comprehension) *)
+            first [ reflexivity | rewrite (for_each_append_map (snd x) _ (fun v => (v, 0))); reflexivity ]);
       destruct (scan add leb (@fst T (list nat)) u0 (hbases g) zero 0) as [c [[k x]|]];
       destruct Hm as [Hin Hm]; eexists; (split; [exact Hm|]);
       [ simpl app; apply HK; apply Hlen; exact Hin
-      | subst Oelse; cbv beta iota;
-        rewrite (for_each_append_map (snd (last (hbases g) ub)) _ (fun v => (v, 0))) by reflexivity;
+      | subst Oelse; cbv beta iota zeta;
+        try (rewrite (for_each_append_map (snd (last (hbases g) ub)) _ (fun v => (v, 0))) by reflexivity);
         simpl app; apply HK; apply Hlen; exact Hin ] ]
   | (* a None sentinel set in the breaking branch, the fall-back after the loop, one append loop *)
     solve [
@@ -216,8 +217,8 @@ Proof.
                 (m_walk_positions g (snd (match sel with None => last (hbases g) ub | Some b => b end)) us, one,
                  find_prob (m_walk_positions g (snd (match sel with None => last (hbases g) ub | Some b => b end)) us) one))
         by (intros c0 sel Hl; subst Krest; cbv beta iota zeta;
-            rewrite (for_each_append_map _ _ (fun v => (v, 0))) by reflexivity;
-            cbv beta; simpl app;
+            try (rewrite (for_each_append_map _ _ (fun v => (v, 0))) by reflexivity);
+            cbv beta zeta; simpl app;
             walk_positions_tac g us u0 c0 (snd (match sel with None => last (hbases g) ub | Some b => b end)) Hl);
       unfold for_each at 1;
       rewrite (loop_scan add leb (@fst T (list nat)) u0
